@@ -88,6 +88,19 @@ func (t *Tap) WritePacket(r *stack.Route, hdr buffer.Prependable, payload buffer
 	return nil
 }
 
+// Release drops everything the tap references (dispatcher, trace, forwarding)
+// so that the stack behind it can be collected: the repository keeps every
+// registered link endpoint in a process-global table for good.
+func (t *Tap) Release() {
+	t.mu.Lock()
+	t.disp = nil
+	t.trace = nil
+	t.read = 0
+	t.Forward = nil
+	t.cond.Broadcast()
+	t.mu.Unlock()
+}
+
 // SetForward replaces the synchronous forwarding callback.
 func (t *Tap) SetForward(f func(Frame)) {
 	t.mu.Lock()
